@@ -207,11 +207,11 @@ pub open spec fn on_col(c: Constraint, s: ColumnId) -> bool {
                 if x < y { assert(self.offsets@[x].0.ix() < self.offsets@[y].0.ix()); }
             }
         }
-//@ at closure 0 spec
-            ensures r == __p.0,
-//@ at closure 1 spec
-            ensures r == __p.1,
 //@ at closure 2 spec
+            ensures r == __p.0,
+//@ at closure 3 spec
+            ensures r == __p.1,
+//@ at closure 4 spec
             ensures r == __p.1,
 //@ end-fn
 
